@@ -116,9 +116,19 @@ func solveOblig(q *Q, o *Oblig, timeoutS int) {
 		attempts = append(attempts, attempt{sl[1], "axioms"})
 	}
 	attempts = append(attempts, attempt{sl[2], "define"})
+	if o.Expect != "sat" {
+		// last resort, only to find a candidate counterexample: all quantified hypotheses dropped
+		attempts = append(attempts, attempt{sl[0], "noquant"}, attempt{sl[1], "noquant"})
+	}
+	if o.Expect == "sat" {
+		attempts = attempts[:1] // reachability covers: one cheap attempt; 'unknown' is acceptable there
+	}
 	for _, at := range attempts {
 		sp := at.sp
 		sc := obligScript(q, o, true, at.variant)
+		if at.variant == "noquant" {
+			sc = stripQuantified(obligScript(q, o, true, "define"))
+		}
 		if sp.name == "cvc5" {
 			sc = forCvc5(sc)
 		}
@@ -133,6 +143,14 @@ func solveOblig(q *Q, o *Oblig, timeoutS int) {
 			case "unsat":
 				o.Status, o.Solver = "failed", sp.name
 				o.Model = "vacuous: the guard is unsatisfiable"
+				return
+			}
+			continue
+		}
+		if at.variant == "noquant" {
+			if r.status == "sat" {
+				o.Status, o.Solver = "failed", sp.name+"/noquant(candidate model: quantified hypotheses dropped)"
+				o.Model = r.out
 				return
 			}
 			continue
@@ -190,4 +208,27 @@ func solveAll(results []*FnResult, timeoutS, workers int) {
 	}
 	close(jobs)
 	wg.Wait()
+}
+
+// stripQuantified removes every top-level command that contains a quantifier (weakening the hypotheses),
+// except the goal itself (the last assert before check-sat), which is kept.
+func stripQuantified(script string) string {
+	lines := strings.Split(script, "\n")
+	last := -1
+	for i, l := range lines {
+		if strings.HasPrefix(l, "(assert ") {
+			last = i
+		}
+	}
+	var out []string
+	for i, l := range lines {
+		if i != last && (strings.Contains(l, "(forall ") || strings.Contains(l, "(exists ")) {
+			if strings.HasPrefix(l, "(define-fun str_eq") {
+				out = append(out, "(declare-fun str_eq (Str Str) Bool)")
+			}
+			continue
+		}
+		out = append(out, l)
+	}
+	return strings.Join(out, "\n")
 }
